@@ -193,12 +193,19 @@ def _extra(draw):
     return d
 
 
-EXHAUSTIVE_NOTE = 'HOD passes as Python twins for every host-table size 0..13 (thorough 0..39) x particle-table size {0,1,5} x thread count 1..4; bin_kmu/bin_kppi for every mesh size 1..9 x 5 edge placements x Fourier/configuration space; TSC/CIC with particles on every face/edge/corner combination of 8 anisotropic grids; cumsum for every length 0..2 x flag combination x dtype pairing; linear_interp boundary sweep: every table length 2..40 x 5 origins x 5 widths x float32/float64 x xd at both ends and every node, each -3..+3 ulp (enumerated completely; the other kernel groups are sampled)'
+EXHAUSTIVE_NOTE = 'expand_poles_to_3d for every mesh size 1..8 with the last multipole node on / just below / just above every attainable |k|^2 shell; HOD passes as Python twins for every host-table size 0..13 (thorough 0..39) x particle-table size {0,1,5} x thread count 1..4; bin_kmu/bin_kppi for every mesh size 1..9 x 5 edge placements x Fourier/configuration space; TSC/CIC with particles on every face/edge/corner combination of 8 anisotropic grids; cumsum for every length 0..2 x flag combination x dtype pairing; linear_interp boundary sweep: every table length 2..40 x 5 origins x 5 widths x float32/float64 x xd at both ends and every node, each -3..+3 ulp (enumerated completely; the other kernel groups are sampled)'
 
 
-def _hod_small(H, P, nthread):
+def _hod_small(H, P, nthread, three=False):
     lrg = dict(logM_cut=12.5, logM1=13.5, sigma=0.5, alpha=1.0, kappa=0.5, ic=1.0, alpha_c=0.0, alpha_s=1.0)
     elg = dict(p_max=0.5, Q=100.0, logM_cut=11.8, kappa=1.0, sigma=0.5, logM1=13.0, alpha=1.0, gamma=1.0, A_s=1.0, ic=1.0, alpha_c=0.0, alpha_s=1.0)
+    if three:
+        # low thresholds, weights up to 1: many satellites of each tracer in a table of 4 particles per host
+        lrg = dict(lrg, logM_cut=11.5, logM1=11.8, kappa=0.1)
+        elg = dict(elg, logM_cut=11.2, logM1=11.8, kappa=0.1)
+        qso = dict(logM_cut=11.5, kappa=0.1, sigma=0.5, logM1=11.8, alpha=1.0, ic=1.0, alpha_c=0.0, alpha_s=1.0)
+        return dict(H=H, P=P, seed=2000 + H, L=2000.0, velz2kms=150.0, logm_lo=12.0, logm_hi=14.0, wmax=1.0, tracers=['LRG', 'ELG', 'QSO'], hod={'LRG': lrg, 'ELG': elg, 'QSO': qso},
+                    multis='one', rsd=bool(H % 2), origin=None, enable_ranks=False, nthread=nthread, overrides=[])
     return dict(H=H, P=P, seed=1000 + 7 * H + P, L=2000.0, velz2kms=150.0, logm_lo=11.0, logm_hi=15.0, wmax=0.6, tracers=['LRG', 'ELG'], hod={'LRG': lrg, 'ELG': elg},
                 multis='one', rsd=bool(H % 2), origin=None, enable_ranks=False, nthread=nthread, overrides=[])
 
@@ -211,6 +218,11 @@ def exhaustive(tier, shard, nshards):
             for P in (0, 1, 5) if tier == 'quick' else (0, 1, 2, 5, 17):
                 for nthread in (1, 2, 3, 4):
                     yield {'g': 'hod', 'd': _hod_small(H, P, nthread), 'twin': True}
+        # all three tracers with generous occupations, so that every per-tracer output array and fill offset is exercised in every
+        # thread block
+        for H in range(1, 10 if tier == 'quick' else 30):
+            for nthread in (2, 3, 4):
+                yield {'g': 'hod', 'd': _hod_small(H, 4 * H, nthread, three=True), 'twin': True}
     k = 0
     for dt in ('f4', 'f8'):
         for n in range(2, 41):
@@ -230,6 +242,18 @@ def exhaustive(tier, shard, nshards):
                 yield {'g': 'extra', 'd': dict(k='bin_kmu', n=n, L=2 * np.pi, ekind=ekind, edges=edges, nthread=1 + (n % 3), fourier=fourier, seed=n, mu=[0.0, 0.5, 1.0], poles=[0, 2] if n % 2 else [])}
                 if n >= 2:
                     yield {'g': 'extra', 'd': dict(k='bin_kppi', n=n, L=2 * np.pi, ekind=ekind, edges=edges, nthread=1 + (n % 3), fourier=fourier, seed=n, pimax_units=[0.4, n / 2.0, n + 1.0][n % 3], npi=2)}
+    # expand_poles_to_3d: the last multipole node on, just below and just above every attainable |k|^2 shell (mode units), and beyond the corner
+    for n1d in range(1, 9):
+        h = n1d // 2
+        shells = sorted({a * a + b * b + c * c for a in range(h + 1) for b in range(h + 1) for c in range(h + 1)} | {3 * h * h + 1, 3 * h * h + 5})
+        for m in shells:
+            for dlt in (0.0, -0.45, 0.45, 1e-6, -1e-6):
+                if m + dlt <= 0:
+                    continue
+                k += 1
+                if k % nshards != shard:
+                    continue
+                yield {'g': 'extra', 'd': dict(k='expand_sweep', n1d=n1d, kmax2=m + dlt, nodes=2 + (m % 4), poles=[[0], [0, 2], [0, 2, 4]][m % 3])}
     # mass assignment: particles on every combination of {0, mid-cell, centre, just below L, L} per axis, anisotropic grids
     for shape in ((4, 6, 3), (3, 5, 4), (6, 3, 5), (5, 4, 6), (3, 3, 3), (7, 4, 4), (4, 7, 3), (3, 4, 8)):
         for kind in ('tsc1', 'tsc2', 'cic'):
@@ -269,7 +293,7 @@ def nontrivial(desc):
         except Exception:
             return False
     k = d['k']
-    if k in ('interp_sweep', 'faces'):
+    if k in ('interp_sweep', 'faces', 'expand_sweep'):
         return True
     if k in ('bin_kppi', 'bin_kmu'):
         return d['ekind'] != 'inside' or d['n'] <= 2 or (k == 'bin_kppi' and d['pimax_units'] < d['n'] / 2)
@@ -382,6 +406,14 @@ def _run_extra(d):
         else:
             _guard('bin_kmu', ps.bin_kmu, n, L, edges, np.array(d['mu'], dtype=np.float64), w, poles=np.array(d['poles'], dtype=np.int64), fourier=fourier, nthread=d['nthread'])
         return None
+    if k == 'expand_sweep':
+        from abacusnbody.analysis import power_spectrum as ps
+
+        n1d = d['n1d']
+        k_ell = np.linspace(0.0, float(np.sqrt(d['kmax2'])), int(d['nodes']))
+        P_ell = np.vstack([np.arange(len(k_ell)) * 1.5 + 2 + i for i in range(len(d['poles']))]).astype(np.float64)
+        _guard('expand_poles_to_3d', ps.expand_poles_to_3d, k_ell, P_ell, n1d, 2 * np.pi, np.array(d['poles'], dtype=np.int64))
+        return None
     if k == 'interp':
         from abacusnbody.analysis import power_spectrum as ps
 
@@ -433,6 +465,8 @@ def _run_extra(d):
             off = 0.5 * box / max(shape) if d['offhalf'] else 0.0
             for wrap in (True, False):
                 _guard('tsc_parallel', tsc.tsc_parallel, pos.copy(), grid, box, nthread=int(d['kind'][-1]), wrap=wrap, offset=off)
+            # the grid given as a shape tuple: allocated (and zeroed in parallel) by the package
+            _guard('tsc_parallel', tsc.tsc_parallel, pos.copy(), shape, box, nthread=int(d['kind'][-1]), wrap=True, offset=off)
         else:
             _guard('cic_serial', cic_serial, pos.copy(), grid, box)
         return None
